@@ -19,4 +19,5 @@ package provisioning
 //@   site (client.Client).Create requires [poolWasRead] (@(client.Client).Get) == nil
 //@   site (client.Client).Create requires [limitsNotExceeded] (@(Limits).ExceededBy) == nil
 //@   site (client.Client).Create requires [createsThisClaim] $2 == @(*NodeClaimTemplate).ToNodeClaim
+//@   loop 1 invariant [none] true
 //@   ensures [refusedWhenExceeded] ((@(client.Client).Get) == nil && (@(Limits).ExceededBy) != nil) ==> (result.1 != nil && result.1 == @(Limits).ExceededBy)
